@@ -19,7 +19,7 @@ TRUSTED = ["Model/Heap.v (registration of mesh edges / cells on their vertices) 
 ASSUMPTIONS = ["clauses (3)-(5) (same object, own id, no repeated vertex, consecutive vertices joined by an edge) are evaluated on the "
                "implementation objects by impl.consistency_errors"]
 TESTED_NOT_PROVED = ["consistency after each parser and after generate_mesh / join_two_vertices / Frame is evaluated by the oracle on every generated input"]
-IMPORTS = "From Forsys Require Import Model.CaseUtil Model.Heap.\n"
+IMPORTS = "From Forsys Require Import Model.CaseUtil Model.PyList Model.Interfaces Model.Resample Model.Heap.\n"
 WORKDIR = os.path.join(C.WORK, "c09")
 
 
@@ -33,12 +33,25 @@ def chain_present(v, e, c, ne):
     return len(set(ends)) != len(ends)
 
 
+MODEL_EXPRS = []        # correspondence expressions of the merge cascade (Model/Resample.v), drained by run()
+
+
 def follow_up(res, v, e, c, rng, replay, label, steps=2):
     """random generate_mesh / Frame sequence; consistency after every step"""
     for s in range(steps):
         ne = int(rng.integers(2, 13))
         flag = bool(rng.integers(0, 2))
         chain = flag and chain_present(v, e, c, ne)
+        if chain and len(MODEL_EXPRS) < 12:
+            # consecutive two-point border interfaces: the outcome of the merge cascade is within known finding D7, but what the cascade
+            # does (id map, unused ids, which vertices disappear) is still tied to Model/Resample.v on a copy of this mesh
+            from props import c11
+            # (coordinates snapped to multiples of 2^-8 so that the midpoints of the cascade are exact in binary64, as they are in the model)
+            spec_now = {"vertices": [[k, round(w.x * 256) / 256, round(w.y * 256) / 256] for k, w in v.items()], "edges": [[k, x.v1.id, x.v2.id] for k, x in e.items()],
+                        "cells": [[k, [w.id for w in x.vertices]] for k, x in c.items()]}
+            sink = []
+            c11.run_case(C.Result("C11"), spec_now, ne, True, sink, label)
+            MODEL_EXPRS.extend(sink)
         try:
             with impl.quiet():
                 v, e, c, _ = impl.ve.generate_mesh(v, e, c, ne=ne, replace_short_edges=flag)
@@ -202,11 +215,14 @@ def run(res, tier, seed):
     for _ in range(6 if tier == "quick" else 60):
         heap_ops(res, rng, exprs, "edge")
         heap_ops(res, rng, exprs, "cell")
+    exprs.extend(MODEL_EXPRS)
+    del MODEL_EXPRS[:]
     bools, outs = C.coq_eval_bools("C09", IMPORTS, [e for e, _ in exprs], chunk=30)
     for (e, rp), b in zip(exprs, bools):
         res.traces += 1
         if b is not True:
-            res.fail("correspondence", f"Model/Heap.v != implementation objects ({rp['kind']} registration)" if b is False else "case did not evaluate",
+            res.fail("correspondence", (f"Model/Heap.v != implementation objects ({rp['kind']} registration)" if "kind" in rp else
+                                        f"Model/Resample.v generate_mesh != implementation on a mesh with consecutive two-point border interfaces ({rp.get('label')})") if b is False else "case did not evaluate",
                      {"correspondence": "Model/Heap.v vs vertex.py / edge.py / cell.py", "case": rp})
 
 
